@@ -43,6 +43,9 @@ MATERIAL = [
     ('\\begin{e}n\\end{e}', 'e'), ('\\begin{e}\\x{}\\end{e}', 'e'), ('\\bar{\\x{} y}', 'bar'),
     ('\\begin{itemize}\\item fresh\n\\end{itemize}', 'item'), ('$m$', '@0'), ('{grp \\x}', '@0'),
     ('\\begin{itemize}\\item one\n\\item two\n\\end{itemize}', 'itemize'),
+    # nodes taken from INSIDE the donor (an argument group, an environment body, an \item)
+    ('\\textbf{\\emph{x} y}', 'emph'), ('\\begin{e}\\x{}\\end{e}', 'x'),
+    ('\\begin{itemize}\\item \\foo{a}\n\\end{itemize}', 'foo'), ('\\bar[\\qq{z}]{w}', 'qq'), ('$\\x{}$', 'x'),
 ]
 ARG_STRINGS = ['{x}', '[y]', '{}', '{a b}', '[x]', '{x}']
 
